@@ -320,7 +320,16 @@ def c18_variants(sc, seed):
     b = copy.deepcopy(sc)
     b["model"]["class"] = "psi"
     b["model"]["psi"] = random.Random(seed).choice([1.0, 1, "1_0", "1", "1.0"])
-    b["model"]["restoration_tau"] = int(sc["model"]["dt"])
+    if random.Random(seed + 4).random() < 0.15 and not sc["events"]:
+        # a step of 49 temporal units (a restoration time of one step is 49 units; 49 * (1 / 49) is not 1 in floats)
+        for m_ in (a, b):
+            m_["model"]["dt"] = 49
+            m_["model"]["alpha_tau"] = max(m_["model"]["alpha_tau"], 49)
+            m_["T"] = 49 * 8
+        regs_, secs_, _c = scen.labels(sc["table"])
+        ev49 = {"type": "arbitrary", "occ": 49, "dur": 49, "name": None, "impact": {f"{regs_[0]}|{secs_[0]}": 0.4}, "recovery_tau": 98, "curve": "linear"}
+        a["events"], b["events"] = [copy.deepcopy(ev49)], [copy.deepcopy(ev49)]
+    b["model"]["restoration_tau"] = int(a["model"]["dt"])
     if random.Random(seed + 2).random() < 0.3:
         # an input kept without any inventory (0 days: accepted with a warning, treated as the minimum of 2 steps)
         secs_ = scen.labels(sc["table"])[1]
@@ -331,7 +340,7 @@ def c18_variants(sc, seed):
         a["model"]["inf_sect"] = b["model"]["inf_sect"] = None
     if random.Random(seed + 1).random() < 0.5:
         # the same restoration time given per input, as a dictionary
-        b["model"]["restoration_tau"] = {s_: int(sc["model"]["dt"]) for s_ in scen.labels(sc["table"])[1]}
+        b["model"]["restoration_tau"] = {s_: int(a["model"]["dt"]) for s_ in scen.labels(sc["table"])[1]}
     ra, rb = run_records(a, register_stocks=True), run_records(b, register_stocks=True)
     out += cmp_records("C18", ra, rb, "base model vs psi model with psi = 1 and restoration time of one step",
                        names=RECORDS + ["inputs_stocks"])
@@ -950,8 +959,9 @@ def fd_rescale(sc, base, seed, pid="C04"):
     if nsteps < 4:
         return out
     j = rng.randint(1, nsteps - 2)
-    f = rng.choice([0.6, 0.8])
+    f = rng.choice([0.6, 0.8, 3.0])
     runs = []
+    hook_bad = []
     for how in ("inplace", "assign"):
         tw = copy.deepcopy(sc)
         tw["sim"]["save_records"] = []
@@ -965,9 +975,21 @@ def fd_rescale(sc, base, seed, pid="C04"):
                         sim.model.final_demand *= f
                     else:
                         sim.model.final_demand = np.array(sim.model.final_demand, dtype=float) * f
+                fd_before = np.array(sim.model.final_demand, dtype=float, copy=True)
                 if sim.next_step() == 1:
                     crashed = True
                     break
+                deliv = getattr(sim.model, "_verif_last_delivery", None)
+                if how == "inplace" and deliv is not None and k >= j and not hook_bad:
+                    N_ = sim.model.n_regions * sim.model.n_sectors
+                    F_ = sim.model.n_regions * sim.model.n_fd_cat
+                    got_fd = np.asarray(deliv, dtype=float)[:, N_:N_ + F_]
+                    want_un = (fd_before - got_fd).sum(axis=1)
+                    un_ = np.asarray(sim.model.final_demand_not_met, dtype=float).ravel()
+                    tol_ = 1e-9 * max(float(np.abs(fd_before).sum(axis=1).max()), 1e-300)
+                    if (np.abs(un_ - want_un) > tol_).any():
+                        i_ = int(np.argmax(np.abs(un_ - want_un)))
+                        hook_bad.append((k, i_, float(un_[i_]), float(want_un[i_])))
             b = {r: getattr(sim, r).to_numpy(dtype=float).copy() for r in RECORDS}
             b["n"] = int(sim.current_temporal_unit)
             b["crashed"] = bool(crashed)
@@ -975,6 +997,10 @@ def fd_rescale(sc, base, seed, pid="C04"):
         except Exception as e:
             b = {"error": f"{type(e).__name__}: {e}"}
         runs.append(b)
+    if hook_bad:
+        k_, i_, got_, want_ = hook_bad[0]
+        out.append(viol(pid, k_ * dt, f"after final demand was scaled by {f}: unmet final demand reported is not final demand minus what final consumers were delivered",
+                        industry=i_, reported=got_, expected=want_))
     out += cmp_records(pid, runs[1], runs[0], f"final demand scaled by {f} before step {j} in place (`*=` on the property) against assigning a new array")
     if "error" not in runs[0]:
         un = runs[0]["final_demand_unmet"]
